@@ -63,6 +63,9 @@ def check_case(case) -> Outcome:
     na, entry, output, efr = case["na_action"], case["entry"], case["output"], case["efr"]
     n = fr["n"]
     df = F.build(fr)
+    if case.get("lv"):
+        df = df.drop(columns=["LV"])  # that "column" lives in the caller's context, as a plain list
+        out.label("list-valued-context-factor")
     if case.get("index_kind") == "tz":
         # a named, timezone-aware DatetimeIndex (its .values are lossy: naive UTC)
         import pandas as pd
@@ -80,26 +83,28 @@ def check_case(case) -> Outcome:
     out.nontrivial = bool(nul) and (fr.get("index") is not None or caller is not None or two or entry in ("spec-overrides", "materializer-reused"))
     passed = None if caller is None else set(caller)
     opts = dict(na_action=na, output=output, ensure_full_rank=efr)
+    # the caller's context: a plain Python list (with NaNs that are not the numpy.nan object) used by the factor LV
+    cx = {"LV": list(case["lv"])} if case.get("lv") else {}
 
     def run():
         if entry == "model_matrix":
-            return model_matrix(s, df, drop_rows=passed, **opts)
+            return model_matrix(s, df, drop_rows=passed, context=cx, **opts)
         if entry == "formula":
-            return Formula(s).get_model_matrix(df, drop_rows=passed, **opts)
+            return Formula(s).get_model_matrix(df, drop_rows=passed, context=cx, **opts)
         if entry == "spec":
-            return ModelSpec.from_spec(Formula(s), **opts).get_model_matrix(df, drop_rows=passed)
+            return ModelSpec.from_spec(Formula(s), **opts).get_model_matrix(df, drop_rows=passed, context=cx)
         if entry == "spec-overrides":
-            return ModelSpec.from_spec(Formula(s)).get_model_matrix(df, drop_rows=passed, **opts)
+            return ModelSpec.from_spec(Formula(s)).get_model_matrix(df, drop_rows=passed, context=cx, **opts)
         if entry == "twosided":
-            return model_matrix(f"{ycol} ~ {s}", df, drop_rows=passed, **opts)
+            return model_matrix(f"{ycol} ~ {s}", df, drop_rows=passed, context=cx, **opts)
         if entry == "specs-overrides":
             # a structured set of specs, options given as overrides
-            return ModelSpec.from_spec(Formula(f"{ycol} ~ {s}")).get_model_matrix(df, drop_rows=passed, context={}, **opts)
+            return ModelSpec.from_spec(Formula(f"{ycol} ~ {s}")).get_model_matrix(df, drop_rows=passed, context=cx, **opts)
         if entry == "materializer-reused":
             # one materializer instance serving an earlier call (other formula, other dropped rows) and then this one
             from formulaic.materializers import PandasMaterializer
 
-            m = PandasMaterializer(df, context={})
+            m = PandasMaterializer(df, context=cx)
             try:
                 m.get_model_matrix("x + y", drop_rows={fr["n"] - 1}, output=output, na_action="ignore")
             except Exception:
@@ -172,7 +177,16 @@ def gen(max_rows=10):
         elif draw(st.integers(0, 5)) == 0:
             fc = {"intercept": fc["intercept"], "terms": F.normalize_terms(fc["terms"] + [[{"k": "hashed", "col": "G", "levels": 3}]])}
         na = draw(st.sampled_from(["drop", "drop", "drop", "raise", "ignore"]))
+        lv = None
+        if draw(st.integers(0, 5)) == 0:
+            # a numeric factor that is a plain Python list in the caller's context; its missing values are NaNs produced
+            # by arithmetic (not the numpy.nan object) or None
+            vals = draw(st.lists(st.sampled_from([1.5, -2.0, 0.0, 3.25, None, None]), min_size=fr["n"], max_size=fr["n"]))
+            fr["cols"]["LV"] = {"dtype": "float64", "values": vals}
+            lv = [float("inf") - float("inf") if v is None else v for v in vals]
+            fc = {"intercept": fc["intercept"], "terms": F.normalize_terms(fc["terms"] + [[{"k": "num", "col": "LV"}]])}
         return {
+            "lv": lv,
             "frame": fr, "index_kind": kind, "formula": fc, "na_action": na,
             "drop": draw(st.one_of(st.none(), st.lists(st.integers(0, 30), max_size=4), st.lists(st.integers(0, 19), min_size=2, max_size=6),
                                      # sets of small ints that do not iterate in sorted order
